@@ -36,9 +36,9 @@ def run(tier, seed):
     base = {'prop': PROP, 'types': TYPES, 'P': 10, 'scale_range': (-27, 29.8), 'max_offset_exp': 12,
             'maxlen': 200, 'long_prob': 0.005}
     if tier == 'quick':
-        nseq, variants, mult = 420, [('release', 1.0), ('dev', 0.3), ('std', 0.2)], 1
+        nseq, variants, mult = 420, [('release', 1.0), ('dev', 0.3), ('std', 0.2), ('plain', 0.2)], 1
     else:
-        nseq, variants, mult = 20000, [('release', 1.0), ('dev', 0.15), ('std', 0.15)], 8
+        nseq, variants, mult = 20000, [('release', 1.0), ('dev', 0.15), ('std', 0.15), ('plain', 0.15)], 8
     total = Result()
     try:
         for variant, frac in variants:
